@@ -7,6 +7,12 @@ Lines:
   cfg nspgiven <s> <thr> <n>                     #scatter points of scatter-point image s at threshold thr
   cfg nspdown <att> <zoom> <thr> <n>             … of attenuation image att down-sampled with zoom set
   cfg zbad <act>                                 activity image with a different z-middle
+  cfg zoomset <z> <size xy> <size z>             the sizes of zoom parameter set z (-1: derived from the image)
+  cfg autoclass <att> <tmpl> <cls>               class of the factors downsample_density_image_for_scatter_points(-1,-1,-1,-1)
+                                                 computes and stores for attenuation image att under pool template tmpl
+  cfg nspauto <att> <cls> <thr> <n>              #scatter points of attenuation image att down-sampled with the stored
+                                                 automatic factors of class cls (x/y size derived from the image)
+  zoommem                                        the members zoom_size_xy zoom_size_z and `zoom_xy < 0` (0|1)
   cfg hist <clean|clean2|dirty> …                `clean`: every operation must satisfy the guard `opOk`;
                                                  `clean2`: the weaker guard of `runGuarded2` (enabling the cache on a set-up
                                                  object is admitted when the next operation line is `set_up`)
@@ -26,6 +32,12 @@ Lines:
   effns <rAB2> <eff511> <cosA> <cosB> <pi>       detection_efficiency_no_scatter(A,B)
   ssp  <5 pair values> <5 values for A> <5 values for B>          simulate_for_one_scatter_point
   est  <n> (<15 values>)^n <rAB2> <eff511> <cosA> <cosB> <pi> <vol> <sigma511>   actual_scatter_estimate
+  deteff <E> <Eref> <res> <2.35482f> <lo> <hi>   detection_efficiency(E) for scanner (reference energy, energy resolution) and
+                                                 energy window [lo, hi]: `value magnitude` computed in binary64 (`erfFloat`)
+  eff511 <Eref> <res> <2.35482f> <lo> <hi>       the normalisation detector_efficiency_no_scatter: `norm raw magnitude`
+  actint <n> <r2> <pi/2> (<inside 0|1> <voxel value> <length>)^n
+                                                 integral_over_activity_image_between_scattpoint_det: capped solid-angle factor
+                                                 times the sum over the elements of the ray (exact in Rat): `value magnitude`
 Floats are C99 hex floats, parsed exactly into `Rat`. -/
 namespace Driver.C16
 open StirVerif.C16
@@ -111,21 +123,75 @@ def doEffNs : List Rat → String
     s!"{fmtRat (detectionEfficiencyNoScatter rAB2 eff511 cosA cosB pi)} {fmtRat (detectionEfficiencyNoScatter (absR rAB2) (absR eff511) (absR cosA) (absR cosB) (absR pi))}"
   | _ => "bad-op"
 
+def ratToFloat (q : Rat) : Float := Float.ofInt q.num / Float.ofNat q.den
+
+/-- exact value of a finite binary64 -/
+def floatToRat (x : Float) : Rat :=
+  if x == 0 then 0
+  else
+    let neg := x < 0
+    let (m, e) := (if neg then -x else x).frExp
+    let mi : Nat := (m.scaleB 53).toUInt64.toNat
+    let q : Rat := (mi : Rat) * pow2 (e - 53)
+    if neg then -q else q
+
+/-- `detection_efficiency(E)` and the first-order sensitivity of the two `erf` values to a relative perturbation of
+    their (single-precision) arguments, plus the value itself (final rounding) -/
+def detEffFloat (E eref res c lo hi : Rat) : Float × Float :=
+  let f := ratToFloat
+  let sigma := sigmaTimesSqrt2 Float.sqrt (f E) (f eref) (f res) (f c)
+  let v := detectionEfficiency erfFloat sigma (f lo) (f hi) (f E)
+  (v, (erfSensitivity ((f hi - f E) / sigma) + erfSensitivity ((f lo - f E) / sigma)) / 2 + v.abs)
+
+def doDetEff : List Rat → String
+  | [E, eref, res, c, lo, hi] =>
+    let (v, m) := detEffFloat E eref res c lo hi
+    if v.isNaN || m.isNaN || v.isInf || m.isInf then "nan" else s!"{fmtRat (floatToRat v)} {fmtRat (floatToRat m)}"
+  | _ => "bad-op"
+
+def doEff511 : List Rat → String
+  | [eref, res, c, lo, hi] =>
+    let (v, m) := detEffFloat 511 eref res c lo hi
+    if v.isNaN || m.isNaN || v.isInf || m.isInf then "nan"
+    else s!"{fmtRat (floatToRat (detEff511OrOne v))} {fmtRat (floatToRat v)} {fmtRat (floatToRat m)}"
+  | _ => "bad-op"
+
+def doActInt (n : Nat) : List Rat → String
+  | r2 :: halfPi :: rest =>
+    if rest.length ≠ 3 * n then "bad-op" else
+    let arr := rest.toArray
+    let image : Nat → Rat := fun i => arr.getD (3 * i + 1) 0
+    let inImage : Nat → Bool := fun i => arr.getD (3 * i) 0 != 0
+    let lor : List (Nat × Rat) := (List.range n).map fun i => (i, arr.getD (3 * i + 2) 0)
+    let v := integralOverActivityScattDet halfPi r2 image inImage lor
+    let m := integralOverActivityScattDet (absR halfPi) (absR r2) (fun i => absR (image i)) inImage (lor.map fun e => (e.1, absR e.2))
+    s!"{fmtRat v} {fmtRat m}"
+  | _ => "bad-op"
+
 structure Tables where
   tmpls : List (Nat × Tmpl) := []
   blocks : List Nat := []
   nspGiven : List ((Nat × Nat) × Nat) := []
   nspDown : List ((Nat × Nat × Nat) × Nat) := []
   zbad : List Nat := []
+  zoomSets : List (Nat × Int × Int) := []
+  autoClass : List ((Nat × Tmpl) × Nat) := []
+  nspAuto : List ((Nat × Nat × Nat) × Nat) := []
 
 def Tables.world (t : Tables) : World :=
   { tmpl := fun k => ((t.tmpls.find? (·.1 == k)).map (·.2)).getD default
     nsp := fun p => match p.sp with
       | .given s => ((t.nspGiven.find? (·.1 == (s, p.thr))).map (·.2)).getD 0
       | .down a z => ((t.nspDown.find? (·.1 == (a, z, p.thr))).map (·.2)).getD 0
+      | .auto a c => ((t.nspAuto.find? (·.1 == (a, c, p.thr))).map (·.2)).getD 0
     defaultDsRings := fun _ => 2
     blocksBase := fun b => t.blocks.contains b
-    zOk := fun a => !t.zbad.contains a }
+    zOk := fun a => !t.zbad.contains a
+    -- (a pair the harness did not declare gets a class of its own: the generator never asks for it)
+    autoClass := fun a tm => ((t.autoClass.find? (·.1 == (a, tm))).map (·.2)).getD (1000000 + 1000 * tm.base + a) }
+
+def Tables.zoomSizes (t : Tables) (z : Nat) : Int × Int :=
+  ((t.zoomSets.find? (·.1 == z)).map (·.2)).getD (-1, -1)
 
 structure DSt where
   tab : Tables := {}
@@ -176,7 +242,7 @@ def applyOps (W : World) (clean : Bool) (s : St) (ops : List Op) : Option St × 
   let rec go (s : St) (guardBad : Bool) : List Op → Option St × String
     | [] => (some s, "ok")
     | [op] =>
-      let bad := guardBad || (clean && !opOk s op)
+      let bad := guardBad || (clean && !opOk W s op)
       let (s', r, o) := step W s op
       let txt := match r, o with
         | .ok, some out => if freshOut W s = (.ok, some out) then "ok fresh" else "ok stale"
@@ -184,7 +250,7 @@ def applyOps (W : World) (clean : Bool) (s : St) (ops : List Op) : Option St × 
       let txt := if bad then txt ++ " GUARD-VIOLATED" else txt
       (if r = .crash then none else some s', txt)
     | op :: rest =>
-      let bad := guardBad || (clean && !opOk s op)
+      let bad := guardBad || (clean && !opOk W s op)
       let (s', r, _) := step W s op
       if r = .crash then (none, "crash") else go s' bad rest
   go s false ops
@@ -204,6 +270,12 @@ def stepLine (d : DSt) (line : String) : DSt × String :=
   | ["cfg", "nspdown", a, z, t, n] =>
     ({ d with tab := { d.tab with nspDown := ((N a, N z, N t), N n) :: d.tab.nspDown } }, "ok")
   | ["cfg", "zbad", a] => ({ d with tab := { d.tab with zbad := N a :: d.tab.zbad } }, "ok")
+  | ["cfg", "zoomset", z, sxy, sz] =>
+    ({ d with tab := { d.tab with zoomSets := (N z, sxy.toInt?.getD (-1), sz.toInt?.getD (-1)) :: d.tab.zoomSets } }, "ok")
+  | ["cfg", "autoclass", a, k, c] =>
+    ({ d with tab := { d.tab with autoClass := ((N a, d.tab.world.tmpl (N k)), N c) :: d.tab.autoClass } }, "ok")
+  | ["cfg", "nspauto", a, c, t, n] =>
+    ({ d with tab := { d.tab with nspAuto := ((N a, N c, N t), N n) :: d.tab.nspAuto } }, "ok")
   | "cfg" :: "hist" :: kind :: _ => ({ d with clean := kind == "clean", clean2 := kind == "clean2", pending := false }, "ok")
   | "cfg" :: _ => (d, "ok")
   | ["new"] => ({ d with st := some init, pending := false }, "ok")
@@ -219,6 +291,18 @@ def stepLine (d : DSt) (line : String) : DSt × String :=
     match xs.mapM parseHexFloat with
     | some rs => (d, doEst (N n) rs)
     | none => (d, "bad-number")
+  | "deteff" :: xs =>
+    match xs.mapM parseHexFloat with
+    | some rs => (d, doDetEff rs)
+    | none => (d, "bad-number")
+  | "eff511" :: xs =>
+    match xs.mapM parseHexFloat with
+    | some rs => (d, doEff511 rs)
+    | none => (d, "bad-number")
+  | "actint" :: n :: xs =>
+    match xs.mapM parseHexFloat with
+    | some rs => (d, doActInt (N n) rs)
+    | none => (d, "bad-number")
   | _ =>
     match d.st with
     | none => (d, "dead")
@@ -226,6 +310,9 @@ def stepLine (d : DSt) (line : String) : DSt × String :=
       let W := d.tab.world
       match toks with
       | ["nsp"] => (d, toString (nspOf W s))
+      | ["zoommem"] =>
+        let (sxy, sz, au) := zoomMembers d.tab.zoomSizes s
+        (d, s!"{sxy} {sz} {if au then 1 else 0}")
       | ["tmplinfo"] =>
         match s.tmpl with
         | none => (d, "none")
@@ -239,7 +326,7 @@ def stepLine (d : DSt) (line : String) : DSt × String :=
             -- must be `set_up`
             let late := d.pending && toks != ["set_up"]
             let defer := match ops with
-              | [op] => !opOk s op && isEnable op
+              | [op] => !opOk W s op && isEnable op
               | _ => false
             let (st', txt) := applyOps W (!defer) s ops
             ({ d with st := st', pending := defer }, if late then txt ++ " GUARD2-VIOLATED" else txt)
